@@ -97,7 +97,9 @@ def _end_to_end(ctx, sample):
     from . import genjudge
     picked, seen = [], set()
     for o in sample:
-        if not o["subject"] or o["nolist"]:
+        # end to end the profile has to pass the v1 profile schema: its attribute enum knows no dotted OIDs (attribute 4) and an
+        # attribute list must not be empty - such profiles are decided at the Validate level only
+        if not o["subject"] or o["nolist"] or not o["attrs"] or 4 in o["attrs"]:
             continue
         k = (tuple(o["attrs"]), tuple(o["opt"]), o["allowOther"], tuple(o["subject"]))
         if k in seen:
